@@ -80,6 +80,7 @@ type c15Checker struct {
 	distinct map[string]bool
 	deferred []c15Deferred
 	nsamples map[string]int
+	lastFailKeys []string // keys raised by the last property() call
 }
 
 func (c *c15Checker) viol(key, what string, found bool, size int, replay map[string]any) {
@@ -148,8 +149,10 @@ type c15Opts struct {
 func (c *c15Checker) property(o c15Opts, before, after []string, pb, pa []pkglint.VerifLayoutLine, replay map[string]any) bool {
 	okAll := true
 	size := c15Size(before)
+	c.lastFailKeys = nil
 	fail := func(key, what string) {
 		okAll = false
+		c.lastFailKeys = append(c.lastFailKeys, key)
 		c.viol(key, what, true, size, replay)
 	}
 	// 1. only blanks differ, line structure is the same
@@ -353,7 +356,17 @@ func (c *c15Checker) alignFragment(lines []string, source string) {
 		c.res.Count("align_after_parser_fix", 1)
 	}
 	c.reqActs = append(c.reqActs, nact)
-	c.reqBad = append(c.reqBad, !good)
+	// the model is faithful to the code also where the code violates the 72-column clause or
+	// splits a word at a backslash run: keep comparing there; any other property failure
+	// already is the finding for this input
+	bad := false
+	for _, k := range c.lastFailKeys {
+		if !strings.HasPrefix(k, "C15/widen72/alignValueSingle") && k != "C15/reparse/backslash-run-before-continuation" {
+			bad = true
+		}
+	}
+	_ = good
+	c.reqBad = append(c.reqBad, bad)
 	if len(c.reqs) >= 40000 {
 		c.flushModel()
 	}
